@@ -352,6 +352,65 @@ theorem translated_update_safe {e : Emu} {rows cols : Nat} (h : EmuInv e rows co
   refine ⟨r, ?_, hi, VaxisModel.Props.C05.events_per_op_le_one e op r hr⟩
   rw [← update_is_generated e op hostEmpty hk]; exact hr
 
+/-! ### the whole session through translated code only -/
+
+/-- one step from generated data only: a parsed sequence through `updateGen`, a resize through the translated body of resize() -/
+def stepGen (hostEmpty : Bool) (e : Emu) (op : EOp) : M (Emu × Nat) :=
+  match op with
+  | .resize w h => evalBody TermBodies.body_resize [] [w, h] e >>= fun e' => .ok (e', 0)
+  | op => updateGen e op hostEmpty
+
+def runGen (hostEmpty : Bool) (e : Emu) : List EOp → M Emu
+  | [] => .ok e
+  | op :: rest => do
+    let (e', _) ← stepGen hostEmpty e op
+    runGen hostEmpty e' rest
+
+/-- on a good state and an admissible operation the translated step IS the model's step -/
+theorem step_is_generated (hostEmpty : Bool) {e : Emu} (hg : VaxisModel.Props.C05.Good e) (op : EOp)
+    (hop : VaxisModel.Props.C05.OpOk op) : stepGen hostEmpty e op = emuStep e op := by
+  obtain ⟨rows, cols, hinv, _⟩ := hg
+  cases op with
+  | resize w h =>
+    obtain ⟨hw1, _, hh1, _⟩ := hop
+    show (evalBody TermBodies.body_resize [] [w, h] e >>= fun e' => Except.ok (e', 0)) = _
+    rw [body_resize e w h (by omega) (rect_of_inv hinv)]
+    rfl
+  | print g w => exact (update_is_generated e (.print g w) hostEmpty (by simp [kindOf])).symm
+  | c0 r => exact (update_is_generated e (.c0 r) hostEmpty (by simp [kindOf])).symm
+  | esc l => exact (update_is_generated e (.esc l) hostEmpty (by simp [kindOf])).symm
+  | csi l pm => exact (update_is_generated e (.csi l pm) hostEmpty (by simp [kindOf])).symm
+  | osc dd info => exact (update_is_generated e (.osc dd info) hostEmpty (by simp [kindOf])).symm
+  | dcs => exact (update_is_generated e .dcs hostEmpty (by simp [kindOf])).symm
+  | apc => exact (update_is_generated e .apc hostEmpty (by simp [kindOf])).symm
+
+theorem runGen_eq (hostEmpty : Bool) (ops : List EOp) : ∀ {e : Emu}, VaxisModel.Props.C05.Good e →
+    (∀ op ∈ ops, VaxisModel.Props.C05.OpOk op) → runGen hostEmpty e ops = runOps e ops := by
+  induction ops with
+  | nil => intro e _ _; rfl
+  | cons op rest ih =>
+    intro e hg hall
+    obtain ⟨r, hr, hg'⟩ := VaxisModel.Props.C05.emu_safe_step hg op (hall op List.mem_cons_self)
+    simp only [runGen, runOps, step_is_generated hostEmpty hg op (hall op List.mem_cons_self), hr, bind, Except.bind]
+    exact ih hg' (fun o ho => hall o (List.mem_cons_of_mem _ ho))
+
+/-- **C05's safety clause for the code as translated from the source, all histories**: start a terminal of any size 1×1..65535²
+    (New() followed by the translated resize()), then run ANY list of parsed sequences (any parameters, payloads) and resizes to
+    admissible sizes through the regenerated type switch of update(), the regenerated dispatch tables and the regenerated bodies —
+    nothing panics, nothing hangs, and the final state has its cursor on the screen, ordered margins within the screen and
+    rectangular grids of the terminal's size (`Good`, see `good_state_clause`). -/
+theorem translated_session_safe (hostEmpty : Bool) (w h : Int) (hw1 : 1 ≤ w) (hw2 : w ≤ 65535) (hh1 : 1 ≤ h) (hh2 : h ≤ 65535)
+    (ops : List EOp) (hall : ∀ op ∈ ops, VaxisModel.Props.C05.OpOk op) :
+    ∃ e0 e', evalBody TermBodies.body_resize [] [w, h] Emu.init = .ok e0 ∧ runGen hostEmpty e0 ops = .ok e' ∧
+      VaxisModel.Props.C05.Good e' := by
+  obtain ⟨e0, e', he0, he', hg'⟩ := VaxisModel.Props.C05.session_safe w h hw1 hw2 hh1 hh2 ops hall
+  obtain ⟨e0', he0', hg0⟩ := VaxisModel.Props.C05.new_good w h hw1 hw2 hh1 hh2
+  have : e0' = e0 := by rw [he0] at he0'; exact (Except.ok.inj he0').symm
+  subst this
+  refine ⟨e0', e', ?_, ?_, hg'⟩
+  · rw [body_resize Emu.init w h (by omega) rect_init]; exact he0
+  · rw [runGen_eq hostEmpty ops hg0 hall]; exact he'
+
 /-- the shape of update() the table was read from: lock, the three defers, then the type switch as the last statement; exactly
     one arm per kind of sequence (in any order), none unknown -/
 theorem update_shape :
